@@ -737,10 +737,15 @@ def main(chk):
         if chk.expired():
             chk.log('deadline: %d of %d shards done' % (done, len(sh)))
             break
+    srv = fs.server('fs')
     for key, v in sorted(viol.items()):
-        cmd = '$CPROC_QBE -t %s input.c; echo "status=$?"' % v['target']
+        # replay before report: the minimal case of the family once more, alone, in a fresh process
+        r = srv.compile(v['src'], target=v['target'], cpu_s=10)
+        got = r.out + b'status=%d\n' % (r.status if r.status < 1000 else 128 + r.status - 1000)
+        cmd = ('$CPROC_QBE -t %s input.c > now 2> err; echo "status=$?" >> now; cat now err; echo "--- $(cat expected)"\n'
+               'cmp -s now got && exit 1   # same observation as recorded: reproduces\nexit 0' % v['target'])
         for _ in range(v['count']):
-            chk.violation(key, v['what'], files={'input.c': v['src']}, cmd=cmd)
+            chk.violation(key, v['what'], files={'input.c': v['src'], 'got': got, 'expected': v['what'].split('; cproc: ')[0] + '\n'}, cmd=cmd)
     chk.strata = per
     states = {(p, st) for p, st, _ in trace}
     cov = {
